@@ -355,7 +355,9 @@ var _ JournalChange = PrecompileCalled{}
 // the precompile call. Modifications to this cache context are pushed to the
 // commit context (s.evmTxCtx) when [StateDB.Commit] is executed.
 func (ch PrecompileCalled) Revert(s *StateDB) {
-	s.cacheCtx = s.cacheCtx.WithMultiStore(ch.MultiStore)
+	// Swap the store inside of the cell shared by every context that was handed
+	// to a precompile, so that a precompile that is still running sees it too.
+	s.cacheStore.current = ch.MultiStore
 	// Rewrite the `writeCacheCtxFn` using the same logic as sdk.Context.CacheCtx
 	s.writeToCommitCtxFromCacheCtx = func() {
 		s.evmTxCtx.EventManager().EmitEvents(ch.Events)
